@@ -37,7 +37,7 @@ def run(chk):
     # one-node evaluations of every accepted enumerated case: only crashes / ill-typed results are forwarded here
     # (TLC rejects them unconditionally); their values are the subject of C10
     ev = chk.path("eval.ndjson")
-    lib.harness(["eval", ev, chk.seed, 2] + files, binary="ops", timeout=3000)
+    oc.eval_parallel(chk, ev, chk.seed, 2, files)
     nev = 0
     crashes = []
     for r in lib.read_ndjson(ev):
